@@ -1,4 +1,4 @@
-import LentilVerif.Model.Zernike
+import LentilVerif.Model.ZernikeRadial
 /-! Noll index arithmetic (core Lean, `omega`). Helper lemmas — property theorems are in Props/C11.lean. -/
 namespace Lentil
 
